@@ -275,7 +275,11 @@ def termModel (causal : Bool) (hasDelay : Bool) (c u : ExpPoly K) : ExpPoly K ×
 def makeModel (causal : Bool) (parts : List (ExpPoly K × ExpPoly K)) : ILTResult K :=
   let c := parts.flatMap (fun x => x.1)
   let u := parts.flatMap (fun x => x.2)
-  { cpart := c, upart := u, guarded := !causal && !u.isEmpty }
+  -- the two conditions under which `make` wraps the result are READ FROM THE SOURCE (tx_ilt: `Gen.makeGuardOnlyIfNotCausal`,
+  -- `Gen.makeGuardOnlyIfUnilateral`); a condition that is absent in the source is absent here
+  { cpart := c, upart := u,
+    guarded := (if Gen.makeGuardOnlyIfNotCausal then !causal else true) &&
+               (if Gen.makeGuardOnlyIfUnilateral then !u.isEmpty else true) }
 
 end
 end Lcapy.Laplace
